@@ -136,6 +136,10 @@ mut("fasteval_accepts_zero_operand_calls", ["C02"], "optimizeFastEvaluation/",
       "\t\ttyp := child.node.getNodeType()\n\t\tif typ == constant || typ == variable || len(child.children) == 0 {\n\t\t\tcontinue\n\t\t}\n\t\treturn\n\t}\n\n\totherPartMask")], "an operator call without operands is inlined as if it were a leaf")
 mut("fasteval_clears_shortcircuit_bits", ["C02"], "optimizeFastEvaluation/storesite/node.flag[fast-only-for-two-leaf-operands]",
     [("compiler.go", "\totherPartMask := nodeTypeMask ^ uint8(0xFF)\n\n\troot.node.flag = fastOperator | (root.node.flag & otherPartMask)", "\totherPartMask := nodeTypeMask ^ uint8(0x7F)\n\n\troot.node.flag = fastOperator | (root.node.flag & otherPartMask)")], "the rewrite drops the top flag bit")
+# ---- C09 (stack maximum)
+mut("stack_max_ignores_last_node", ["C09"], "calAndSetStackSize/",
+    [("compiler.go", "\tfor i, n := range e.nodes {\n\t\tmaxStackSize = maxInt16(maxStackSize, f[i])\n\t\tn.osTop = f[i] - 1\n\t}",
+      "\tfor i, n := range e.nodes {\n\t\tif i+1 < len(e.nodes) {\n\t\t\tmaxStackSize = maxInt16(maxStackSize, f[i])\n\t\t}\n\t\tn.osTop = f[i] - 1\n\t}")], "the root's own height does not count towards the stack maximum")
 
 def main():
     out = os.path.join(os.path.dirname(os.path.abspath(__file__)), "mutants")
